@@ -141,6 +141,70 @@ pub fn leak_monitor(r: &RunResult<Vec<bool>>, advice: Option<&RunResult<Vec<bool
     Ok(())
 }
 
+/// Label census: for every AND gate and garbler, exactly one of the four garbled rows authenticates
+/// under the labels the evaluator holds (re-derived from the 'labels' messages, the free-gate rules
+/// and the evaluator-label probe).  Returns the number of (gate, garbler) pairs checked.
+pub fn label_census(case: &MpcCase, r: &RunResult<Vec<bool>>) -> Result<u32, String> {
+    use chacha20poly1305::aead::{Aead, KeyInit};
+    use chacha20poly1305::{ChaCha20Poly1305, Key, Nonce};
+    use crate::circuits::G;
+    let n = case.n();
+    let e = case.p_eval;
+    let mut checked = 0;
+    for g in (0..n).filter(|g| *g != e) {
+        // labels of input wires as sent by garbler g
+        let Some(lm) = r.msgs.iter().find(|m| m.from == g && m.to == e && m.label == "labels") else { return Err("no labels message".into()) };
+        let Val::Vec(items) = decode_msg("labels", &lm.bytes)? else { unreachable!() };
+        let mut held: Vec<Option<u128>> = vec![None; case.circ.max_reg];
+        // garbled gates of g in AND order (possibly several chunks)
+        let mut gates: Vec<Vec<Vec<u8>>> = vec![];
+        for m in r.msgs.iter().filter(|m| m.from == g && m.to == e && m.label == "preprocessed gates") {
+            let Val::Vec(gs) = decode_msg("preprocessed gates", &m.bytes)? else { unreachable!() };
+            for gate in gs {
+                let Val::Tup(rows) = gate else { unreachable!() };
+                gates.push(rows.iter().map(|row| match row { Val::Vec(b) => b.iter().map(|x| if let Val::U8(v) = x { *v } else { 0 }).collect(), _ => vec![] }).collect());
+            }
+        }
+        let mut and_idx = 0;
+        for (w, (out, gate)) in case.circ.insts.iter().enumerate() {
+            let l = match *gate {
+                G::In(..) => match &items[*out as usize] {
+                    Val::Opt(Some(x)) => match **x { Val::U128(v) => Some(v), _ => None },
+                    _ => return Err(format!("garbler {g} sent no label for input wire r{out}")),
+                },
+                G::Xor(a, b) => Some(held[a as usize].ok_or("label missing")? ^ held[b as usize].ok_or("label missing")?),
+                G::Not(a) => held[a as usize],
+                G::And(a, b) => {
+                    let (lx, ly) = (held[a as usize].ok_or("label missing")?, held[b as usize].ok_or("label missing")?);
+                    let mut key = [0u8; 32];
+                    key[..16].copy_from_slice(&lx.to_be_bytes());
+                    key[16..].copy_from_slice(&ly.to_be_bytes());
+                    let cipher = ChaCha20Poly1305::new(Key::from_slice(&key));
+                    let rows = gates.get(and_idx).ok_or("garbled gate missing")?;
+                    let mut opens = 0;
+                    for (row, ct) in rows.iter().enumerate() {
+                        let mut nonce = [0u8; 12];
+                        nonce[..8].copy_from_slice(&(w as u64).to_be_bytes());
+                        nonce[8] = row as u8;
+                        if cipher.decrypt(Nonce::from_slice(&nonce), ct.as_ref()).is_ok() {
+                            opens += 1;
+                        }
+                    }
+                    checked += 1;
+                    if opens != 1 {
+                        return Err(format!("AND gate at instruction {w}: {opens} of the 4 rows of garbler {g} authenticate under the labels the evaluator holds"));
+                    }
+                    and_idx += 1;
+                    // label of the AND output for garbler g, as computed by the evaluator
+                    r.probes.iter().find(|p| p.party == e && p.name == "eval_label" && matches!(&p.val, ProbeVal::U128s(v) if v.len() == 3 && v[0] == w as u128 && v[1] == g as u128)).and_then(|p| match &p.val { ProbeVal::U128s(v) => Some(v[2]), _ => None })
+                }
+            };
+            held[*out as usize] = l;
+        }
+    }
+    Ok(checked)
+}
+
 fn probed_run(case: &MpcCase, seed: u64, faults: Vec<Fault>, taps: Vec<TapSpec>, w: usize) -> RunResult<Vec<bool>> {
     let mut ec = ExecCfg::new(case.n(), seed);
     ec.record_probes = true;
@@ -186,9 +250,15 @@ pub fn main(tier: Tier, seed: u64) -> i32 {
                 None => leaks.push(("MACHINERY".into(), "delta probe missing".into())),
             }
         }
-        (ok, leaks, st.windows, st.fields)
+        let census = label_census(case, &r);
+        (ok, leaks, st.windows, st.fields, census)
     });
-    for ((name, case), (ok, leaks, w, f)) in honest_cases.iter().zip(hres.iter()) {
+    let mut census_checked = 0u64;
+    for ((name, case), (ok, leaks, w, f, census)) in honest_cases.iter().zip(hres.iter()) {
+        match census {
+            Ok(k) => census_checked += *k as u64,
+            Err(e) => rep.violation("honest:label_census", format!("{name}: {e}"), json!({"kind":"mpc_case","case":case})),
+        }
         rep.evaluations += 1;
         st.windows += w;
         st.fields += f;
@@ -204,6 +274,7 @@ pub fn main(tier: Tier, seed: u64) -> i32 {
         }
     }
     rep.set("honest_runs", json!(honest_cases.len()));
+    rep.set("label_census_gate_garbler_pairs", json!(census_checked));
 
     // ---- (ii) under attack: every single alteration that keeps the run going --------------------
     let mut cfgs: Vec<Config> = vec![];
@@ -315,6 +386,6 @@ pub fn main(tier: Tier, seed: u64) -> i32 {
     rep.set("windows_indexed", json!(st.windows));
     rep.set("decoded_fields_indexed", json!(st.fields));
     rep.rule = "pool = every message on the wire of the execution (as sent) plus, under attack, what the peers hold in the honest execution of the same tape; with d = the victim's probed key: d at no byte offset in either byte order; no two 128-bit windows (all byte offsets, both orders) XOR to d; no three decoded 128-bit fields XOR to d (honest and scripted runs). Executions: honest runs over circuits with NOT gates on inputs / AND outputs / outputs, n=2..4, all evaluators; every single alteration of the C02/C04 menu (reduced in quick) per corrupted role; the scripted persistent check-bit liar with fixed-up reply. non-trivial = honest runs + attack runs in which the victim kept sending after the fault + scripted runs".into();
-    rep.assumptions = vec!["delta is read through a guarded probe".into(), "label census (one label per wire and garbler) is not implemented; a leaked second label is covered by the two-window XOR monitor".into()];
+    rep.assumptions = vec!["delta is read through a guarded probe".into(), "label census on honest runs: exactly one of the four rows of every (AND gate, garbler) opens under the labels the evaluator holds".into()];
     rep.finish()
 }
